@@ -168,12 +168,13 @@ class World:
 
     def proj_obj(self):
         if self.eko is None:
-            return {"exists": False, "open": False, "ro": False, "cache": {}}
+            return {"exists": False, "open": False, "ro": False, "cache": {}, "rc": False}
         e = self.eko
         cache = {}
         for hdr, op in e.operators.cache.items():
             cache[self.keytok(hdr.scale, hdr.nf)] = self.valtok(op)
-        return {"exists": True, "open": bool(e.access.open), "ro": bool(e.access.readonly), "cache": cache}
+        return {"exists": True, "open": bool(e.access.open), "ro": bool(e.access.readonly), "cache": cache,
+                "rc": len(e.recipes.cache) > 0}
 
     def snapshot(self):
         arc, sha = self.proj_arc()
@@ -262,6 +263,11 @@ class World:
                 from eko.io.items import Evolution
 
                 self.eko.load_recipes([Evolution(self.scales["k1"], self.scales["k1"] * 2, 4)])
+                out = r("ok")
+            elif op == "getrecipe":
+                from eko.io.items import Evolution
+
+                self.eko.recipes[Evolution(self.scales["k1"], self.scales["k1"] * 2, 4)]
                 out = r("ok")
             elif op == "dump":
                 self.eko.dump()
